@@ -9,6 +9,28 @@ claim("C15", "proof",
       "atomic_output_file protocol, and that callees are functions of their arguments; the byte-identity of the CLI "
       "subprocess with the text API is explored only in the bounded layer.",
       "contract-based deductive verification: AST->VC generation over the real source + z3", "DESIGN.md §3 C15")
-for _p in ["C01", "C02", "C03", "C04", "C05", "C06", "C07", "C08", "C09", "C10", "C11", "C12", "C13", "C14", "C16",
+claim("C14", "proof",
+      "Effect-ordering and frame contracts on reformat_file / reformat_files / cli.main, discharged on every path including "
+      "every path on which an external call raises: exactly one read, then one format of what was read, then one output of "
+      "exactly the formatted text; every write goes to the temp path yielded by the atomic context; nothing is committed on "
+      "an exceptional exit; no output effect precedes a successful format; in-place targets `path` with .orig backup iff not "
+      "nobackup, otherwise `path` is never a target; one reformat_file call per input, in order; usage errors raise before "
+      "any effect. The crash-atomicity itself is reduced to the assumed strif/os.replace protocol and explored by fault and "
+      "crash injection at every file-system call (bounded layer).",
+      "Assumes strif.atomic_output_file's protocol and atomic os.replace; 'at every instant / after any crash' between two "
+      "system calls is the operating system's and is not decided by contracts; termination of callees assumed.",
+      "contract-based deductive verification: effect-log contracts, AST->VC generation + z3; bounded fault/crash injection stand-in",
+      "DESIGN.md §3 C14")
+claim("C16", "proof",
+      "Per-field three-way merge semantics of merge_cli_with_config (loop over the live dataclass fields cut by an invariant), "
+      "the explicit-flag table of _parse_args against the documented option strings (a flag passed with its default value "
+      "still counts), upward search order of find_config_file (loop invariant over the ancestor chain, ghost depth), "
+      "load_config's pyproject section selection, main's find->load->merge->resolve->format order, and 'every accepted key is "
+      "an Options attribute that reaches reformat_files or FileResolverConfig' are discharged for all values.",
+      "tomllib and argparse by assumed contract; _parse_config_data (loops over a symbolic dict) is covered only by the "
+      "bounded product; Path.parent chain finite (termination of the upward walk assumed).",
+      "contract-based deductive verification: AST->VC generation + z3 (loop invariants, ghost state); bounded product stand-in",
+      "DESIGN.md §3 C16")
+for _p in ["C01", "C02", "C03", "C04", "C05", "C06", "C07", "C08", "C09", "C10", "C11", "C12", "C13",
            "C17", "C18"]:
     NOT_APPLICABLE[_p] = "check not built yet in this round (planned in DESIGN.md §3); nothing is claimed"
